@@ -1151,7 +1151,7 @@ class PageLabels(NumberTree):
 
         for next, (start, label_dict_unchecked) in enumerate(ranges, 1):
             label_dict = dict_value(label_dict_unchecked)
-            style = label_dict.get("S")
+            style = resolve1(label_dict.get("S"))
             prefix = decode_text(str_value(label_dict.get("P", b"")))
             first_value = int_value(label_dict.get("St", 1))
 
